@@ -3,7 +3,8 @@ Driver for Model/Cache.lean (stateful; the hidden state of one session):   lake 
   reset                                     fresh hidden state
   L <branch> <kind> <fill> <T|F>            loading_at (F: the interpolator constructor raises for this key) -> use=<key of the interpolator that is evaluated> | use=build-error
   P <branch> <kind> <fill> <T|F>            pressure_at          -> use=<key> | use=build-error
-  S <branch> <fill> <T|F> <T|F>             spreading_pressure_at (T: the range guard refuses; F: the constructor raises) -> use=refused | use=<key> | use=build-error
+  S <branch> <fill> <T|F> <T|F>             spreading_pressure_at (T: the call ends before the interpolator is consulted — conversion refused, range guard, Henry
+                                            region below the first point; F: the constructor raises) -> use=refused | use=<key> | use=build-error
   A <key> <T|F> [pair,v1,v2,name,T|F;...]   calculate=True accessor: dictionary key, key stored?, (update, read, read succeeds?) steps
   C <name> <key> <T|F> <T|F> <T|F>          constant accessor: key stored?, through the state?, constant available?
   K <key> <T|F>                             calculate=False accessor: key stored?
@@ -11,7 +12,8 @@ Driver for Model/Cache.lean (stateful; the hidden state of one session):   lake 
   sync <l|~> <p|~>                          set the interpolator keys (after a call the model does not describe)
   syncth <~|new|pair,v1,v2>                 set the thermodynamic state (same)
 every line answers  <outcome> | l=<b,k,f|~> p=<b,k,f|~> th=<~|new|pair,v1,v2> ld=[k1;k2]
-Instantiation: fill values, flash coordinates and results are opaque strings (the model is polymorphic in them); the
+Instantiation: a fill is a `Fill String` — `extrapolate`, a pair `(lo:hi)`, or one value (a number / an array, spelled as the harness
+spells it) —, flash coordinates and results are opaque strings (the model is polymorphic in them); the
 evaluators return a description of WHAT is evaluated (which interpolator key, which flash), so that the reply states the
 model's prediction of the path taken.
 -/
@@ -20,16 +22,33 @@ import PgVerif.Drv.Proto
 
 open PgVerif.Model.Cache PgVerif.Proto
 
-abbrev St := Session.Hid String String String
+abbrev St := Session.Hid (Fill String) String String String
 
-def showKey (k : Key String) : String := s!"{k.branch},{k.kind},{k.fill.getD "~"}"
+/-- a fill token of the harness: `~` none, `extrapolate`, `(lo:hi)` a (below, above) pair, anything else one value -/
+def parseFill (t : String) : Option (Fill String) :=
+  if t == "~" then none
+  else if t == "extrapolate" then some .extrapolate
+  else if t.startsWith "(" && t.endsWith ")" then
+    match ((t.drop 1).dropEnd 1).toString.splitOn ":" with
+    | [lo, hi] => some (.pair lo hi)
+    | _ => some (.value t)
+  else some (.value t)
 
-def showOptKey (k : Option (Key String)) : String := match k with | none => "~" | some k => showKey k
+def showFill (f : Option (Fill String)) : String :=
+  match f with
+  | none => "~"
+  | some .extrapolate => "extrapolate"
+  | some (.pair lo hi) => s!"({lo}:{hi})"
+  | some (.value v) => v
 
-def parseKey (t : String) : Option (Option (Key String)) :=
+def showKey (k : Key (Fill String)) : String := s!"{k.branch},{k.kind},{showFill k.fill}"
+
+def showOptKey (k : Option (Key (Fill String))) : String := match k with | none => "~" | some k => showKey k
+
+def parseKey (t : String) : Option (Option (Key (Fill String))) :=
   if t == "~" then some none else
   match t.splitOn "," with
-  | [b, k, f] => some (some ⟨b, k, optStr f⟩)
+  | [b, k, f] => some (some ⟨b, k, parseFill f⟩)
   | _ => none
 
 def showFlash (f : Thermo.Flash String) : String := s!"{f.pair},{f.v1},{f.v2}"
@@ -49,7 +68,7 @@ def parseTh (t : String) : Option (Thermo.Hidden String) :=
 def dump (s : St) : String :=
   s!"l={showOptKey s.interp.l} p={showOptKey s.interp.p} th={showTh s.thermo} ld=[{";".intercalate (s.loaded.map (·.1))}]"
 
-def isoWorld (refused buildable : Bool) : World String Unit Unit String :=
+def isoWorld (refused buildable : Bool) : World (Fill String) Unit Unit String :=
   { EL := fun _ k _ => showKey k, EP := fun _ k _ => showKey k,
     BL := fun _ _ => if buildable then none else some "build-error",
     BP := fun _ _ => if buildable then none else some "build-error",
@@ -66,7 +85,7 @@ def adsWorld (constAvail : Bool) : Thermo.World String Ads String :=
     comb := fun l => "+".intercalate l,
     policy := Thermo.alwaysUpdate }
 
-def world (refused constAvail : Bool) (buildable : Bool := true) : Session.World String Unit Ads Unit String String String String :=
+def world (refused constAvail : Bool) (buildable : Bool := true) : Session.World (Fill String) String Unit Ads Unit String String String String :=
   { iso := isoWorld refused buildable, ads := adsWorld constAvail, keyOf := id, loader := fun r => "loaded:" ++ r }
 
 def showRes (r : Session.Res String String) : String :=
@@ -81,7 +100,7 @@ def parseStep (t : String) : Option (Thermo.Flash String × String) :=
   | [p, a, b, name, ok] => some (⟨p, a, b⟩, if ok == "T" then name else name ++ "!fail")
   | _ => none
 
-def exec (st : St) (refused constAvail : Bool) (ads : Ads) (q : Session.Query String Unit String) (buildable : Bool := true) : St × String :=
+def exec (st : St) (refused constAvail : Bool) (ads : Ads) (q : Session.Query (Fill String) String Unit String) (buildable : Bool := true) : St × String :=
   let r := Session.step (world refused constAvail buildable) ⟨(), ads⟩ st q
   (r.2.2, showRes r.1 ++ " | " ++ dump r.2.2)
 
@@ -92,15 +111,15 @@ def stepLine (st : St) (ts : List String) : St × String :=
   | ["reset"] => (Session.fresh, "ok | " ++ dump (Session.fresh : St))
   | ["L", b, k, f, ok] =>
     match parseBool ok with
-    | some ok => exec st false true [] (.iso (.loadingAt ⟨b, k, optStr f⟩ ())) ok
+    | some ok => exec st false true [] (.iso (.loadingAt ⟨b, k, parseFill f⟩ ())) ok
     | none => (st, "bad-op")
   | ["P", b, k, f, ok] =>
     match parseBool ok with
-    | some ok => exec st false true [] (.iso (.pressureAt ⟨b, k, optStr f⟩ ())) ok
+    | some ok => exec st false true [] (.iso (.pressureAt ⟨b, k, parseFill f⟩ ())) ok
     | none => (st, "bad-op")
   | ["S", b, f, r, ok] =>
     match parseBool r, parseBool ok with
-    | some r, some ok => exec st r true [] (.iso (.spreadingAt b (optStr f) ())) ok
+    | some r, some ok => exec st r true [] (.iso (.spreadingAt b (parseFill f) ())) ok
     | _, _ => (st, "bad-op")
   | ["A", key, stored, steps] =>
     match parseBool stored, (parseList steps).bind (·.mapM parseStep) with
